@@ -53,8 +53,18 @@ def _gr(prop, tier, seed, replay=None):
 
 
 def _split(prop, tier, seed, replay=None):
-    from . import run_split
-    return run_split.run(prop, tier, seed, replay)
+    from . import run_split, run_session
+    import json
+    if replay:
+        doc = json.load(open(replay))
+        if 'events' in doc.get('case', {}):
+            return run_session.run(prop, tier, seed, replay)
+        return run_split.run(prop, tier, seed, replay)
+    rep = core.Report(prop, tier, seed)
+    byid = run_split.run(prop, tier, seed, rep=rep, finish=False)
+    byid2 = run_session.run(prop, tier, seed, rep=rep, finish=False)
+    byid.update(byid2)
+    return rep.finish(byid)
 
 
 def _wr(prop, tier, seed, replay=None):
@@ -67,7 +77,13 @@ def _rd(prop, tier, seed, replay=None):
     return run_readers.run(prop, tier, seed, replay)
 
 
+def _ses(prop, tier, seed, replay=None):
+    from . import run_session
+    return run_session.run(prop, tier, seed, replay)
+
+
 CHECKS = {
+    'C03': _ses,
     'C01': _rd,
     'C02': _wr,
     'C17': _split,
